@@ -28,14 +28,18 @@ func init() {
 	})
 	register(&Property{
 		ID: "C53",
-		Explanation: "Decides the guards of the comparison, not the listed set for given trees (the plan listed this property as not applicable; re-examination found that each marker is carried by a guard): (dual-merge) by specialised evaluation of data.DualTreeIterator's loop with both sides non-empty: when tree 1's next name is smaller only tree 1's node is handed out, when tree 2's is smaller only tree 2's, for equal names both together; an iterator is advanced only when its node is handed out and every handed-out node's iterator is advanced before the pair is yielded; (diff-markers) Comparer.diffTree prints '-' only with node2 == nil and node1 != nil, '+' only with node1 == nil and node2 != nil, a modified pair only when both are present and the modifier string is non-empty; the letter T is appended only on the edge where the types differ, M only for two files whose content lists are not DeepEqual; the recursion into subdirectories is reached only when the two subtree IDs differ and compares node1.Subtree with node2.Subtree, and collectDir, which handles identical subtrees, reports nothing. Not decided: that both trees are sorted by name (C41), the statistics, and metadata-only changes (U).",
+		Explanation: "Decides the guards of the comparison, not the listed set for given trees (the plan listed this property as not applicable; re-examination found that each marker is carried by a guard): (dual-merge) by specialised evaluation of data.DualTreeIterator's loop with both sides non-empty: when tree 1's next name is smaller only tree 1's node is handed out, when tree 2's is smaller only tree 2's, for equal names both together; an iterator is advanced only when its node is handed out and every handed-out node's iterator is advanced before the pair is yielded; (diff-markers) Comparer.diffTree prints '-' only with node2 == nil and node1 != nil, '+' only with node1 == nil and node2 != nil, a modified pair only when both are present and the modifier string is non-empty; the letter T is appended only on the edge where the types differ, M only for two files whose content lists are not DeepEqual; the recursion into subdirectories is reached only when the two subtree IDs differ and compares node1.Subtree with node2.Subtree, and collectDir, which handles identical subtrees, reports nothing; (printdir-lists-everything) below an added or removed directory printDir prints every node before it goes on to the next one, and whether it descends into a subdirectory is decided by the node's type alone (added after a seeded change that skipped subtrees whose tree blob had been seen before, dropping the paths of identical subtrees); (type-change-lists-children) when the two types differ, the paths below the side that is a directory exist in only one snapshot and can only be listed by printDir — on the pinned tree no printDir call is reachable from the types-differ edge, diff prints `T /d` and nothing for /d/x (demonstrated; KNOWN-FINDING, the repair adds lines to diff's output and statistics). Not decided: that both trees are sorted by name (C41), the statistics, and metadata-only changes (U).",
 		Assumptions: commonAssumptions,
 		Technique:   "static analysis: specialised path evaluation of the merge loop with nil-ness of the yielded sides + CFG edge cuts per marker (go/ssa)",
 		Run: func(c *eng.Ctx) {
 			ruleDualMerge(c)
 			ruleDiffMarkers(c)
+			rulePrintDirListsEverything(c)
+			ruleTypeChangeListsChildren(c)
 		},
 		Controls: []Control{
+			{Name: "added-directory-lists-only-files", File: "cmd/restic/cmd_diff.go",
+				Old: "		c.printChange(NewChange(name, mode))\n		stats.Add(node)\n		addBlobs(blobs, node)\n\n		if node.Type == data.NodeTypeDir {\n			err := c.printDir(", New: "		if node.Type != data.NodeTypeDir {\n			c.printChange(NewChange(name, mode))\n		}\n		stats.Add(node)\n		addBlobs(blobs, node)\n\n		if node.Type == data.NodeTypeDir {\n			err := c.printDir(", Rule: "printdir-lists-everything"},
 			{Name: "merge-keeps-larger-name", File: "internal/data/tree.go",
 				Old: "				if node1.Name < node2.Name {\n					node2 = nil\n				} else if node1.Name > node2.Name {\n					node1 = nil\n				}", New: "				if node1.Name < node2.Name {\n					node1 = nil\n				} else if node1.Name > node2.Name {\n					node2 = nil\n				}", Rule: "dual-merge"},
 			{Name: "both-sides-always-advanced", File: "internal/data/tree.go",
